@@ -47,6 +47,12 @@ def distinct : List String → Bool
   | [] => true
   | n :: rest => !rest.contains n && distinct rest
 
+/-- `assignment.last_value().filter(|v| can_return_multiple_values(v)).is_some()` -/
+def lastMulti (api : EvalApi) (vs : List Expr) : Bool :=
+  match vs.getLast? with
+  | some l => api.canReturnMultiple l
+  | none => false
+
 def processLocal (api : EvalApi) : Stmt → Stmt
   | .localAssign .loc ns vs =>
     let nv := ns.length
@@ -55,7 +61,7 @@ def processLocal (api : EvalApi) : Stmt → Stmt
     if vs1.length > nv then .localAssign .loc ns vs1
     else if !vs1.any isNil then .localAssign .loc ns vs1
     else if !distinct (tnamesOf ns) then .localAssign .loc ns vs1   -- (fix of F24: a name is declared twice)
-    else if nv > vs1.length && (match vs1.getLast? with | some l => api.canReturnMultiple l | none => false) then
+    else if nv > vs1.length && lastMulti api vs1 then
       .localAssign .loc ns vs1
     else
       let (ns2, vs2, moved) := removeAt (nilIndices vs1 0).reverse (ns, vs1, [])
